@@ -34,6 +34,18 @@ def sq(v):
     return int(round(v * S)) if np.isfinite(v) and abs(v) < 1e5 else 2000000000
 
 
+def symmetric_centred(rng, n):
+    """a SYMMETRIC integer feature matrix with zero column (and row) sums: symmetric off-diagonal entries, the diagonal
+    balances every row (samples described by their similarities to each other)"""
+    while True:
+        A = rng.integers(-2, 3, size=(n, n))
+        A = np.triu(A, 1)
+        A = A + A.T
+        A[np.arange(n), np.arange(n)] = -A.sum(axis=1)
+        if np.abs(A).max() <= 8 and np.linalg.matrix_rank(A) >= n - 1 and np.any(A):
+            return A
+
+
 def regressor_for(route):
     from sklearn.linear_model import LinearRegression, Ridge
     if route == "default":
